@@ -630,7 +630,9 @@ def _process_class( cls, add_init=True, add_str=True, add_repr=True,
       return tuple( [ _convert_list_to_tuple( y ) for y in x ] )
     return x
 
-  reserved_fields = ['to_bits', 'from_bits', 'nbits']
+  # (an instance attribute of one of these names would hide the generated
+  # method of that name)
+  reserved_fields = ['to_bits', 'from_bits', 'nbits', 'clone', '_flip', 'get_field_type']
   for x in reserved_fields:
     assert x not in cls.__dict__, f"Currently a bitstruct cannot have {reserved_fields}, but "\
                                   f"{x} is provided as {cls.__dict__[x]}"
